@@ -509,6 +509,9 @@ func (sg *sqlGen) fillTable(idx int, tb *sqlTable) {
 			if e == "uint8" && fixed == 0 {
 				e = "int64" // []uint8 is bytea, covered by "bytes"
 			}
+			if e == "uint8" && fixed > 0 && o.gated("fixed_byte_array_column") {
+				e = "int32"
+			}
 			f.Type = sg.local(sg.ensureArray(e, fixed))
 		case "enumint":
 			f.Type = sg.local(sg.ensureEnum(false))
